@@ -775,3 +775,590 @@ Qed.
 Example shrink_example :
   shrink_loop (S (N.to_nat (sumN [10; 4; 6]))) 15 [3; 1; 2] [10; 4; 6] = Ok [5; 4; 4].
 Proof. vm_compute. reflexivity. Qed.
+
+(* the width the renderer reserves for the table (`table_width`, which counts only the
+   non-empty columns) is within the width as well *)
+Corollary table_width_le : forall fuel width mins ws0 ws_,
+  shrink_loop fuel width mins ws0 = Ok ws_ ->
+  sumN ws_ + (N.of_nat (length (filter (fun w => 0 <? w) ws_)) - 1) <= width.
+Proof.
+  intros fuel width mins ws0 ws_ H. apply shrink_loop_fits in H.
+  assert (Hf : (length (filter (fun w => (0 <? w)%N) ws_) <= length ws_)%nat).
+  { clear. induction ws_ as [|a l IH]; cbn [filter length]; [apply le_n|].
+    destruct (0 <? a); cbn [length]; [apply le_n_S; exact IH|apply le_S; exact IH]. }
+  assert (H0 : length ws_ = O -> sumN ws_ = 0) by (destruct ws_; [reflexivity|discriminate]).
+  lia.
+Qed.
+
+(* ================================================================== *)
+(* C. Row assembly (C05 / C06)                                          *)
+(* ================================================================== *)
+Definition vw (v : list elem) : N := sumN (map (fun e => swidth (elem_text e)) v).
+Definition sv (v : list elem) : text := flat_map elem_text v.
+
+Lemma vw_sv : forall v, vw v = swidth (sv v).
+Proof.
+  induction v as [|e v IH]; unfold vw, sv in *; cbn [map sumN flat_map swidth]; [reflexivity|].
+  rewrite swidth_app, IH. reflexivity.
+Qed.
+Lemma tl_width_raw_string : forall l, tl_width_raw l = swidth (tl_string l).
+Proof. intros l. apply vw_sv. Qed.
+
+Lemma sv_push_merge : forall v s t, sv (v_push_merge v s t) = sv v ++ s.
+Proof.
+  induction v as [|e v IH]; intros s t.
+  - unfold sv. cbn. apply app_nil_r.
+  - destruct v as [|e' v'].
+    + cbn [v_push_merge]. destruct e as [s0 t0|nm].
+      * destruct (tag_eqb t0 t); unfold sv; cbn; rewrite ?app_nil_r; reflexivity.
+      * unfold sv; cbn; rewrite ?app_nil_r; reflexivity.
+    + change (v_push_merge (e :: e' :: v') s t) with (e :: v_push_merge (e' :: v') s t).
+      unfold sv in *. cbn [flat_map]. rewrite IH. cbn [flat_map]. rewrite <- !app_assoc. reflexivity.
+Qed.
+
+Lemma tl_string_push_str : forall l s t, tl_string (tl_push_str l s t) = tl_string l ++ s.
+Proof.
+  intros l s t. unfold tl_push_str. destruct s as [|c s]; [rewrite app_nil_r; reflexivity|].
+  unfold tl_string. cbn [tv]. apply sv_push_merge.
+Qed.
+Lemma tl_string_push : forall l e, tl_string (tl_push l e) = tl_string l ++ elem_text e.
+Proof.
+  intros l [s t|nm]; cbn [tl_push elem_text].
+  - apply tl_string_push_str.
+  - unfold tl_string. cbn [tv]. rewrite flat_map_app. reflexivity.
+Qed.
+Lemma tl_string_push_char : forall l c t, tl_string (tl_push_char l c t) = tl_string l ++ [c].
+Proof. intros l c t. unfold tl_push_char, tl_string. cbn [tv]. apply sv_push_merge. Qed.
+Lemma tl_string_consume : forall other l, tl_string (tl_consume l other) = tl_string l ++ tl_string other.
+Proof.
+  intros other l. unfold tl_consume. unfold tl_string at 3.
+  revert l. induction (tv other) as [|e v IH]; intros l; cbn [fold_left flat_map].
+  - rewrite app_nil_r. reflexivity.
+  - rewrite IH, tl_string_push, <- app_assoc. reflexivity.
+Qed.
+
+Lemma swidth_border_string : forall b, swidth (border_string b) = N.of_nat (length b).
+Proof.
+  induction b as [|s b IH]; unfold border_string in *; cbn [map swidth length]; [reflexivity|].
+  rewrite IH. destruct s; unfold cw0; cbn; lia.
+Qed.
+Lemma swidth_vertical_lines : forall b, swidth (to_vertical_lines_above b) = N.of_nat (length b).
+Proof.
+  induction b as [|s b IH]; unfold to_vertical_lines_above in *; cbn [map swidth length]; [reflexivity|].
+  rewrite IH. destruct s; unfold cw0; cbn; lia.
+Qed.
+Lemma swidth_spacesl : forall lb n, swidth (spacesl lb n) = n.
+Proof. intros lb n. unfold spacesl. rewrite swidth_repeat_space. lia. Qed.
+
+(* the separator between two cells *)
+Definition bar (draw : bool) : chr := if draw then vbar else spacel L_border.
+Lemma cw0_bar : forall draw, cw0 (bar draw) = 1.
+Proof. intros [|]; reflexivity. Qed.
+
+(* what cell j contributes to output line i *)
+Definition cell_text (i : nat) (w : N) (pad : option text) (ls : list rline) : text :=
+  match nth_opt ls i with
+  | Some r => rline_string r
+  | None => match pad with Some p => p | None => spacesl L_pad w end
+  end.
+
+Fixpoint row_text (draw : bool) (i : nat) (sets : list (N * list rline)) (pads : list (option text))
+  : text :=
+  match sets with
+  | [] => []
+  | (w, ls) :: sets' =>
+    cell_text i w (match pads with p :: _ => p | [] => None end) ls ++
+    match sets' with
+    | [] => []
+    | _ => bar draw :: row_text draw i sets' (tl pads)
+    end
+  end.
+
+(* the characters of an assembled line: cell, bar, cell, bar, ..., cell *)
+Theorem row_line_string : forall t draw i sets pads acc,
+  tl_string (row_line t draw i sets pads acc) = tl_string acc ++ row_text draw i sets pads.
+Proof.
+  intros t draw i. induction sets as [|[w ls] sets' IH]; intros pads acc.
+  - cbn [row_line row_text]. rewrite app_nil_r. reflexivity.
+  - cbn [row_line row_text]. rewrite IH.
+    set (pad := match pads with p :: _ => p | [] => None end).
+    assert (H1 : tl_string
+              match nth_opt ls i with
+              | Some (RText tl) => tl_consume acc tl
+              | Some (RLine b _) => tl_push acc (Str (border_string b) t)
+              | None => tl_push acc (Str match pad with Some p => p | None => spacesl L_pad w end t)
+              end = tl_string acc ++ cell_text i w pad ls).
+    { unfold cell_text. destruct (nth_opt ls i) as [[tl|b bt]|].
+      - apply tl_string_consume.
+      - rewrite tl_string_push. reflexivity.
+      - rewrite tl_string_push. reflexivity. }
+    destruct sets' as [|s' sets''].
+    + rewrite H1. cbn [row_text]. rewrite !app_nil_r. reflexivity.
+    + fold (bar draw). rewrite tl_string_push_char, H1, <- !app_assoc. reflexivity.
+Qed.
+
+(* line i of cell j is "exact": it is as wide as the cell *)
+Definition rline_exact (w : N) (r : rline) : Prop :=
+  match r with
+  | RText tl => tl_width_raw tl = w
+  | RLine b _ => N.of_nat (length b) = w
+  end.
+Definition cell_line_ok (w : N) (pad : option text) (ol : option rline) : Prop :=
+  match ol with
+  | Some r => rline_exact w r
+  | None => match pad with Some p => swidth p = w | None => True end
+  end.
+Fixpoint row_ok (i : nat) (sets : list (N * list rline)) (pads : list (option text)) : Prop :=
+  match sets with
+  | [] => True
+  | (w, ls) :: sets' =>
+    cell_line_ok w (match pads with p :: _ => p | [] => None end) (nth_opt ls i) /\
+    row_ok i sets' (tl pads)
+  end.
+
+Lemma cell_text_width : forall i w pad ls,
+  cell_line_ok w pad (nth_opt ls i) -> swidth (cell_text i w pad ls) = w.
+Proof.
+  intros i w pad ls H. unfold cell_text. destruct (nth_opt ls i) as [[tl|b bt]|]; cbn [cell_line_ok rline_exact] in H.
+  - cbn [rline_string]. rewrite <- tl_width_raw_string. exact H.
+  - cbn [rline_string]. rewrite swidth_border_string. exact H.
+  - destruct pad as [p|]; [exact H|apply swidth_spacesl].
+Qed.
+
+Lemma row_text_width : forall draw i sets pads,
+  row_ok i sets pads ->
+  swidth (row_text draw i sets pads) = sumN (map fst sets) + (N.of_nat (length sets) - 1).
+Proof.
+  intros draw i. induction sets as [|[w ls] sets' IH]; intros pads Hok.
+  - reflexivity.
+  - cbn [row_ok] in Hok. destruct Hok as [Hc Hok].
+    cbn [row_text map fst sumN length]. rewrite swidth_app, (cell_text_width _ _ _ _ Hc).
+    destruct sets' as [|s' sets''].
+    + cbn [swidth map sumN length]. lia.
+    + cbn [swidth]. rewrite cw0_bar, (IH _ Hok). cbn [length]. lia.
+Qed.
+
+(* all lines of a row band are equally wide *)
+Theorem row_line_width : forall t draw i sets pads acc,
+  row_ok i sets pads ->
+  tl_width_raw (row_line t draw i sets pads acc) =
+  tl_width_raw acc + sumN (map fst sets) + (N.of_nat (length sets) - 1).
+Proof.
+  intros t draw i sets pads acc Hok.
+  rewrite !tl_width_raw_string, row_line_string, swidth_app, (row_text_width _ _ _ _ Hok). lia.
+Qed.
+
+(* the bars sit at the display columns `bar_positions`: the text in front of the j-th bar is
+   exactly as wide as the j-th bar position *)
+Lemma row_text_bars : forall draw i sets pads pos j x,
+  row_ok i sets pads ->
+  nth_opt (bar_positions (map fst sets) pos) j = Some x ->
+  exists pre post,
+    row_text draw i sets pads = pre ++ bar draw :: post /\ pos + swidth pre = x.
+Proof.
+  intros draw i. induction sets as [|[w ls] sets' IH]; intros pads pos j x Hok Hj.
+  - destruct j; discriminate.
+  - destruct sets' as [|s' sets'']; [destruct j; discriminate|].
+    cbn [row_ok] in Hok. destruct Hok as [Hc Hok].
+    change (bar_positions (map fst ((w, ls) :: s' :: sets'')) pos)
+      with ((pos + w) :: bar_positions (map fst (s' :: sets'')) (pos + w + 1)) in Hj.
+    change (row_text draw i ((w, ls) :: s' :: sets'') pads)
+      with (cell_text i w (match pads with p :: _ => p | [] => None end) ls ++
+            bar draw :: row_text draw i (s' :: sets'') (tl pads)).
+    destruct j as [|j]; cbn [nth_opt] in Hj.
+    + inversion Hj; subst x. eexists; eexists. split; [reflexivity|].
+      rewrite (cell_text_width _ _ _ _ Hc). reflexivity.
+    + destruct (IH (tl pads) (pos + w + 1) j x Hok Hj) as [pre [post [Heq Hw]]].
+      exists (cell_text i w (match pads with p :: _ => p | [] => None end) ls ++ bar draw :: pre), post.
+      rewrite Heq. split.
+      * rewrite <- app_assoc. reflexivity.
+      * rewrite swidth_app, (cell_text_width _ _ _ _ Hc). cbn [swidth]. rewrite cw0_bar. lia.
+Qed.
+
+Theorem row_line_bars : forall t draw i sets pads j x,
+  row_ok i sets pads ->
+  nth_opt (bar_positions (map fst sets) 0) j = Some x ->
+  exists pre post,
+    tl_string (row_line t draw i sets pads tl_new) = pre ++ bar draw :: post /\ swidth pre = x.
+Proof.
+  intros t draw i sets pads j x Hok Hj.
+  destruct (row_text_bars draw i sets pads 0 j x Hok Hj) as [pre [post [Heq Hw]]].
+  exists pre, post. rewrite row_line_string. cbn. split; [exact Heq|lia].
+Qed.
+
+(* ---- where exact lines come from: pad_cell_lines ---- *)
+Lemma vw_push_str : forall l s t, tl_width_raw (tl_push_str l s t) = tl_width_raw l + swidth s.
+Proof. intros l s t. rewrite !tl_width_raw_string, tl_string_push_str, swidth_app. reflexivity. Qed.
+
+Lemma tl_pad_to_exact : forall l w t l',
+  tl_pad_to l w t = Ok l' -> tl_width_raw l <= w -> tl_width_raw l' = w.
+Proof.
+  intros l w t l' H Hle. unfold tl_pad_to, tl_width in H.
+  destruct (tlen_ l =? tl_width_raw l); cbn [bind] in H; [|discriminate].
+  destruct (N.ltb_spec (tl_width_raw l) w) as [Hlt|Hge]; inversion H; subst l'.
+  - unfold tl_push_wsl. rewrite vw_push_str, swidth_spacesl. lia.
+  - lia.
+Qed.
+
+Definition rline_fits (w : N) (r : rline) : Prop :=
+  match r with
+  | RText tl => tl_width_raw tl <= w
+  | RLine b _ => N.of_nat (length b) <= w
+  end.
+
+(* pad_cell_lines makes every line that fits the cell exactly as wide as the cell *)
+Lemma pad_cell_lines_exact : forall w t ls ls',
+  pad_cell_lines w t ls = Ok ls' -> Forall (rline_fits w) ls -> Forall (rline_exact w) ls'.
+Proof.
+  intros w t. induction ls as [|r ls IH]; intros ls' H Hf; cbn [pad_cell_lines] in H.
+  - inversion H; subst. constructor.
+  - inversion Hf as [|r0 l0 Hr Hls]; subst.
+    destruct r as [tl|b bt].
+    + destruct (tl_pad_to tl w t) as [tl'| | |] eqn:Hp; cbn [bind] in H; try discriminate.
+      destruct (pad_cell_lines w t ls) as [r'| | |]; cbn [bind] in H; try discriminate.
+      inversion H; subst ls'. constructor; [|apply IH; [reflexivity|exact Hls]].
+      cbn [rline_exact rline_fits] in *. eapply tl_pad_to_exact; eassumption.
+    + destruct (pad_cell_lines w t ls) as [r'| | |]; cbn [bind] in H; try discriminate.
+      inversion H; subst ls'. constructor; [|apply IH; [reflexivity|exact Hls]].
+      cbn [rline_exact rline_fits] in *. rewrite length_stretch_to. lia.
+Qed.
+
+(* ---- the collapse steps keep the cells exact and make exact paddings ---- *)
+Definition sets_exact (sets : list (N * list rline)) : Prop :=
+  Forall (fun p => Forall (rline_exact (fst p)) (snd p)) sets.
+Definition pad_ok (p : N * list rline) (pad : option text) : Prop :=
+  match pad with Some s => swidth s = fst p | None => True end.
+
+Lemma Forall_removelast : forall {A} (P : A -> Prop) l, Forall P l -> Forall P (removelast l).
+Proof.
+  intros A P l H. induction H as [|a l Ha H IH]; cbn [removelast]; [constructor|].
+  destruct l as [|b l']; [constructor|]. constructor; assumption.
+Qed.
+Lemma olast_in : forall {A} (l : list A) x, olast l = Some x -> In x l.
+Proof.
+  intros A l x H. unfold olast in H. destruct (rev l) as [|y r] eqn:E; [discriminate|].
+  inversion H; subst y. apply in_rev. rewrite E. left. reflexivity.
+Qed.
+
+Lemma collapse_top_exact : forall sets prev pos prev' sets',
+  collapse_top sets prev pos = Ok (prev', sets') ->
+  sets_exact sets -> map fst sets' = map fst sets /\ sets_exact sets'.
+Proof.
+  induction sets as [|[w sub] sets IH]; intros prev pos prev' sets' H Hex; cbn [collapse_top] in H.
+  - inversion H; subst. split; [reflexivity|constructor].
+  - inversion Hex as [|p0 l0 Hsub Hrest]; subst. cbn [fst snd] in Hsub.
+    destruct sub as [|[tl|line lt] sub'].
+    + destruct (collapse_top sets prev (pos + w + 1)) as [[p s]| | |] eqn:E; cbn [bind] in H; try discriminate.
+      inversion H; subst. cbn [fst snd]. destruct (IH _ _ _ _ E Hrest) as [H1 H2].
+      split; [cbn [map fst]; rewrite H1; reflexivity|constructor; assumption].
+    + destruct (collapse_top sets prev (pos + w + 1)) as [[p s]| | |] eqn:E; cbn [bind] in H; try discriminate.
+      inversion H; subst. cbn [fst snd]. destruct (IH _ _ _ _ E Hrest) as [H1 H2].
+      split; [cbn [map fst]; rewrite H1; reflexivity|constructor; assumption].
+    + destruct prev as [pb|]; [|discriminate].
+      destruct (collapse_top sets (Some (merge_from_below pb line pos)) (pos + w + 1)) as [[p s]| | |] eqn:E;
+        cbn [bind] in H; try discriminate.
+      inversion H; subst. cbn [fst snd]. destruct (IH _ _ _ _ E Hrest) as [H1 H2].
+      split; [cbn [map fst]; rewrite H1; reflexivity|].
+      constructor; [|assumption]. cbn [fst snd]. inversion Hsub; assumption.
+Qed.
+
+Lemma collapse_bottom_exact : forall sets next pos next' sets' pads,
+  collapse_bottom sets next pos = (next', sets', pads) ->
+  sets_exact sets ->
+  map fst sets' = map fst sets /\ sets_exact sets' /\ Forall2 pad_ok sets' pads.
+Proof.
+  induction sets as [|[w sub] sets IH]; intros next pos next' sets' pads H Hex; cbn [collapse_bottom] in H.
+  - inversion H; subst. repeat split; constructor.
+  - inversion Hex as [|p0 l0 Hsub Hrest]; subst. cbn [fst snd] in Hsub.
+    destruct (olast sub) as [[tl|line lt]|] eqn:El.
+    + destruct (collapse_bottom sets next (pos + w + 1)) as [[n' s'] p'] eqn:E.
+      inversion H; subst. destruct (IH _ _ _ _ _ E Hrest) as [H1 [H2 H3]].
+      split; [cbn [map fst]; rewrite H1; reflexivity|].
+      split; constructor; try assumption. exact I.
+    + destruct (collapse_bottom sets (merge_from_above next line pos) (pos + w + 1)) as [[n' s'] p'] eqn:E.
+      inversion H; subst. destruct (IH _ _ _ _ _ E Hrest) as [H1 [H2 H3]].
+      split; [cbn [map fst]; rewrite H1; reflexivity|].
+      split; constructor; try assumption.
+      * cbn [fst snd]. apply Forall_removelast. exact Hsub.
+      * cbn [pad_ok fst]. rewrite swidth_vertical_lines.
+        apply olast_in in El. rewrite Forall_forall in Hsub. exact (Hsub _ El).
+    + destruct (collapse_bottom sets next (pos + w + 1)) as [[n' s'] p'] eqn:E.
+      inversion H; subst. destruct (IH _ _ _ _ _ E Hrest) as [H1 [H2 H3]].
+      split; [cbn [map fst]; rewrite H1; reflexivity|].
+      split; constructor; try assumption. exact I.
+Qed.
+
+Lemma nth_opt_Forall : forall {A} (P : A -> Prop) l n a, Forall P l -> nth_opt l n = Some a -> P a.
+Proof.
+  intros A P l n a H. revert n. induction H as [|x l Hx _ IH]; intros n Hn; [destruct n; discriminate|].
+  destruct n as [|n]; cbn [nth_opt] in Hn; [inversion Hn; subst; exact Hx|eauto].
+Qed.
+
+Lemma row_ok_of_exact : forall i sets pads,
+  sets_exact sets -> Forall2 pad_ok sets pads -> row_ok i sets pads.
+Proof.
+  intros i sets pads Hex Hp. revert Hex. induction Hp as [|[w ls] pad sets pads Hpad _ IH]; intros Hex.
+  - exact I.
+  - inversion Hex as [|p0 l0 Hls Hrest]; subst. cbn [fst snd] in Hls. cbn [row_ok tl]. split; [|exact (IH Hrest)].
+    unfold cell_line_ok. destruct (nth_opt ls i) as [r|] eqn:En.
+    + exact (nth_opt_Forall _ _ _ _ Hls En).
+    + destruct pad as [p|]; [exact Hpad|exact I].
+Qed.
+Lemma row_ok_no_pads : forall i sets,
+  sets_exact sets -> row_ok i sets (map (fun _ => None) sets).
+Proof.
+  intros i sets Hex. apply row_ok_of_exact; [exact Hex|].
+  clear. induction sets as [|p l IH]; cbn [map]; constructor; [exact I|exact IH].
+Qed.
+
+(* C05/C06, row band: when every cell line fits its cell, every assembled line of the row
+   (with collapsed borders, as in append_columns_with_borders) is exactly
+   tot_width = sum of the cell widths + (number of cells - 1) wide *)
+Theorem row_band_width : forall t draw i sets prev1 next1 prev2 sets2 next2 sets3 pads,
+  sets_exact sets ->
+  collapse_top sets prev1 0 = Ok (prev2, sets2) ->
+  collapse_bottom sets2 next1 0 = (next2, sets3, pads) ->
+  tl_width_raw (row_line t draw i sets3 pads tl_new) =
+  sumN (map fst sets) + (N.of_nat (length sets) - 1).
+Proof.
+  intros t draw i sets prev1 next1 prev2 sets2 next2 sets3 pads Hex Ht Hb.
+  destruct (collapse_top_exact _ _ _ _ _ Ht Hex) as [H1 H2].
+  destruct (collapse_bottom_exact _ _ _ _ _ _ Hb H2) as [H3 [H4 H5]].
+  rewrite (row_line_width t draw i sets3 pads tl_new (row_ok_of_exact i _ _ H4 H5)).
+  rewrite H3, H1.
+  assert (Hl : length sets3 = length sets).
+  { rewrite <- (map_length fst sets3), H3, H1, map_length. reflexivity. }
+  rewrite Hl. unfold tl_new, tl_width_raw. cbn [tv map sumN]. lia.
+Qed.
+
+(* the sets computed by col_line_sets are exact when every cell's lines fit the cell *)
+Lemma col_line_sets_exact : forall t cols sets,
+  col_line_sets t cols = Ok sets ->
+  Forall (fun c => forall ls, sub_into_lines c = Ok ls -> Forall (rline_fits (swidth_ c)) ls) cols ->
+  sets_exact sets /\ map fst sets = map swidth_ cols.
+Proof.
+  intros t. induction cols as [|c cols IH]; intros sets H Hf; cbn [col_line_sets] in H.
+  - inversion H; subst. split; [constructor|reflexivity].
+  - inversion Hf as [|c0 l0 Hc Hrest]; subst.
+    destruct (sub_into_lines c) as [ls| | |] eqn:El; cbn [bind] in H; try discriminate.
+    destruct (pad_cell_lines (swidth_ c) t ls) as [pls| | |] eqn:Ep; cbn [bind] in H; try discriminate.
+    destruct (col_line_sets t cols) as [r| | |] eqn:Er; cbn [bind] in H; try discriminate.
+    inversion H; subst sets. destruct (IH r eq_refl Hrest) as [H1 H2].
+    split; [|cbn [map fst]; rewrite H2; reflexivity].
+    constructor; [|exact H1]. cbn [fst snd].
+    eapply pad_cell_lines_exact; [exact Ep|]. apply Hc. reflexivity.
+Qed.
+
+(* the hypothesis is needed: a cell line wider than its cell makes that row line wider *)
+Example overflow_counterexample :
+  let wide := RText (tl_from_string (of_ascii [97; 98; 99; 100; 101]) []) in   (* "abcde" in a cell of width 3 *)
+  let ok := RText (tl_from_string (of_ascii [120; 121]) []) in                 (* "xy" in a cell of width 2 *)
+  (pad_cell_lines 3 [] [wide],
+   tl_width_raw (row_line [] true 0 [(3, [wide]); (2, [ok])] [None; None] tl_new)) =
+  (Ok [wide], 8).                                                              (* 8 > 3 + 2 + 1 *)
+Proof. vm_compute. reflexivity. Qed.
+
+Example row_example :
+  let c1 := [RText (tl_from_string (of_ascii [97; 98; 99]) [])] in             (* "abc" *)
+  let c2 := [RText (tl_from_string (of_ascii [120; 121]) []); RText (tl_from_string (of_ascii [122; 122]) [])] in
+  (cps (tl_string (row_line [] true 0 [(3, c1); (2, c2)] [None; None] tl_new)),
+   cps (tl_string (row_line [] true 1 [(3, c1); (2, c2)] [None; None] tl_new)),
+   bar_positions [3; 2] 0) =
+  ([97; 98; 99; 9474; 120; 121], [32; 32; 32; 9474; 122; 122], [3]).
+Proof. vm_compute. reflexivity. Qed.
+
+(* ---- the borders after collapsing (nested tables): still pure join sequences ---- *)
+Fixpoint join_positions (other : list seg) (pos : N) : list N :=
+  match other with
+  | [] => []
+  | s :: other' => (if seg_is_join s then [pos] else []) ++ join_positions other' (pos + 1)
+  end.
+
+Lemma merge_from_spec : forall (J : N -> jop) jn,
+  (forall b x, jn b x = apply_jop b (J x)) ->
+  forall other b pos,
+  merge_from jn b other pos = fold_left apply_jop (map J (join_positions other pos)) b.
+Proof.
+  intros J jn HJ. induction other as [|s other IH]; intros b pos; cbn [merge_from join_positions]; [reflexivity|].
+  rewrite IH. destruct (seg_is_join s); cbn [app map fold_left]; [rewrite HJ|]; reflexivity.
+Qed.
+Lemma merge_from_above_spec : forall other b pos,
+  merge_from_above b other pos = fold_left apply_jop (map JA (join_positions other pos)) b.
+Proof. intros. unfold merge_from_above. apply merge_from_spec. reflexivity. Qed.
+Lemma merge_from_below_spec : forall other b pos,
+  merge_from_below b other pos = fold_left apply_jop (map JB (join_positions other pos)) b.
+Proof. intros. unfold merge_from_below. apply merge_from_spec. reflexivity. Qed.
+
+Lemma join_positions_bound : forall other pos x,
+  In x (join_positions other pos) -> pos <= x /\ x < pos + N.of_nat (length other).
+Proof.
+  induction other as [|s other IH]; intros pos x Hin; cbn [join_positions] in Hin; [destruct Hin|].
+  apply in_app_or in Hin. destruct Hin as [Hin|Hin].
+  - destruct (seg_is_join s); [|destruct Hin]. destruct Hin as [<-|[]]. cbn [length]. lia.
+  - apply IH in Hin. cbn [length]. lia.
+Qed.
+
+(* joins that the bottom (top) borders of the cells contribute to the next (previous) border *)
+Fixpoint collapsed_bottom (sets : list (N * list rline)) (pos : N) : list N :=
+  match sets with
+  | [] => []
+  | (w, sub) :: sets' =>
+    match olast sub with
+    | Some (RLine line _) => join_positions line pos
+    | _ => []
+    end ++ collapsed_bottom sets' (pos + w + 1)
+  end.
+Fixpoint collapsed_top (sets : list (N * list rline)) (pos : N) : list N :=
+  match sets with
+  | [] => []
+  | (w, sub) :: sets' =>
+    match sub with
+    | RLine line _ :: _ => join_positions line pos
+    | _ => []
+    end ++ collapsed_top sets' (pos + w + 1)
+  end.
+
+Lemma collapse_bottom_next : forall sets next pos next' sets' pads,
+  collapse_bottom sets next pos = (next', sets', pads) ->
+  next' = fold_left apply_jop (map JA (collapsed_bottom sets pos)) next.
+Proof.
+  induction sets as [|[w sub] sets IH]; intros next pos next' sets' pads H;
+    cbn [collapse_bottom collapsed_bottom] in *.
+  - inversion H; subst. reflexivity.
+  - destruct (olast sub) as [[tl|line lt]|].
+    + destruct (collapse_bottom sets next (pos + w + 1)) as [[n' s'] p'] eqn:E.
+      inversion H; subst. cbn [app]. eapply IH. exact E.
+    + destruct (collapse_bottom sets (merge_from_above next line pos) (pos + w + 1)) as [[n' s'] p'] eqn:E.
+      inversion H; subst. rewrite map_app, fold_left_app, <- merge_from_above_spec. eapply IH. exact E.
+    + destruct (collapse_bottom sets next (pos + w + 1)) as [[n' s'] p'] eqn:E.
+      inversion H; subst. cbn [app]. eapply IH. exact E.
+Qed.
+
+Lemma collapse_top_prev : forall sets pb pos prev' sets',
+  collapse_top sets (Some pb) pos = Ok (prev', sets') ->
+  prev' = Some (fold_left apply_jop (map JB (collapsed_top sets pos)) pb).
+Proof.
+  induction sets as [|[w sub] sets IH]; intros pb pos prev' sets' H;
+    cbn [collapse_top collapsed_top] in *.
+  - inversion H; subst. reflexivity.
+  - destruct sub as [|[tl|line lt] sub'].
+    + destruct (collapse_top sets (Some pb) (pos + w + 1)) as [[p s]| | |] eqn:E; cbn [bind] in H; try discriminate.
+      inversion H; subst. cbn [fst app]. eapply IH. exact E.
+    + destruct (collapse_top sets (Some pb) (pos + w + 1)) as [[p s]| | |] eqn:E; cbn [bind] in H; try discriminate.
+      inversion H; subst. cbn [fst app]. eapply IH. exact E.
+    + destruct (collapse_top sets (Some (merge_from_below pb line pos)) (pos + w + 1)) as [[p s]| | |] eqn:E;
+        cbn [bind] in H; try discriminate.
+      inversion H; subst. cbn [fst]. rewrite map_app, fold_left_app, <- merge_from_below_spec.
+      eapply IH. exact E.
+Qed.
+(* without a previous border nothing is collapsed at the top unless a cell starts with a
+   border, which is the model's Panic 37 (unreachable!() in the Rust code) *)
+Lemma collapse_top_none : forall sets pos prev' sets',
+  collapse_top sets None pos = Ok (prev', sets') -> prev' = None /\ sets' = sets.
+Proof.
+  induction sets as [|[w sub] sets IH]; intros pos prev' sets' H; cbn [collapse_top] in H.
+  - inversion H; subst. split; reflexivity.
+  - destruct sub as [|[tl|line lt] sub']; try discriminate;
+      (destruct (collapse_top sets None (pos + w + 1)) as [[p s]| | |] eqn:E; cbn [bind] in H; try discriminate;
+       inversion H; subst; cbn [fst snd]; destruct (IH _ _ _ E) as [-> ->]; split; reflexivity).
+Qed.
+
+Lemma collapsed_bottom_bound : forall sets pos x,
+  sets_exact sets -> In x (collapsed_bottom sets pos) ->
+  pos <= x /\ x + 1 <= pos + sumN (map fst sets) + (N.of_nat (length sets) - 1).
+Proof.
+  induction sets as [|[w sub] sets IH]; intros pos x Hex Hin; cbn [collapsed_bottom] in Hin; [destruct Hin|].
+  inversion Hex as [|p0 l0 Hsub Hrest]; subst. cbn [fst snd] in Hsub.
+  cbn [map fst sumN length]. apply in_app_or in Hin. destruct Hin as [Hin|Hin].
+  - destruct (olast sub) as [[tl|line lt]|] eqn:El; try destruct Hin.
+    apply join_positions_bound in Hin. apply olast_in in El.
+    rewrite Forall_forall in Hsub. specialize (Hsub _ El). cbn [rline_exact] in Hsub. lia.
+  - destruct sets as [|s' sets']; [destruct Hin|].
+    apply (IH _ _ Hrest) in Hin. cbn [length] in *. lia.
+Qed.
+Lemma collapsed_top_bound : forall sets pos x,
+  sets_exact sets -> In x (collapsed_top sets pos) ->
+  pos <= x /\ x + 1 <= pos + sumN (map fst sets) + (N.of_nat (length sets) - 1).
+Proof.
+  induction sets as [|[w sub] sets IH]; intros pos x Hex Hin; cbn [collapsed_top] in Hin; [destruct Hin|].
+  inversion Hex as [|p0 l0 Hsub Hrest]; subst. cbn [fst snd] in Hsub.
+  cbn [map fst sumN length]. apply in_app_or in Hin. destruct Hin as [Hin|Hin].
+  - destruct sub as [|[tl|line lt] sub']; try destruct Hin.
+    apply join_positions_bound in Hin. inversion Hsub as [|r0 l1 Hr _]; subst. cbn [rline_exact] in Hr. lia.
+  - destruct sets as [|s' sets']; [destruct Hin|].
+    apply (IH _ _ Hrest) in Hin. cbn [length] in *. lia.
+Qed.
+
+Lemma joined_width_bounded : forall w ops,
+  (forall o, In o ops -> jop_pos o + 1 <= w) -> joined_width w ops = w.
+Proof.
+  intros w ops H. destruct (joined_width_max ops w) as [Hw|[o [Hin Hw]]]; [exact Hw|].
+  specialize (H o Hin). pose proof (joined_width_ge ops w). lia.
+Qed.
+
+(* C05, the border drawn under a row: it is exactly as long as the row's lines
+   (tot_width), and shows ┴ exactly under the bars of this row and under the junctions of the
+   collapsed bottom borders of its cells, ─ everywhere else *)
+Theorem row_bottom_border : forall sets2 pb next2 sets3 pads,
+  sets_exact sets2 ->
+  let ws_ := map fst sets2 in
+  let tot := sumN ws_ + (N.of_nat (length ws_) - 1) in
+  collapse_bottom sets2 (snd (join_cols ws_ pb (border_new tot) 0)) 0 = (next2, sets3, pads) ->
+  N.of_nat (length next2) = tot /\
+  forall x, x < tot ->
+    nth_opt next2 (N.to_nat x) =
+    Some (if existsb (N.eqb x) (bar_positions ws_ 0 ++ collapsed_bottom sets2 0)
+          then JoinAbove else Straight).
+Proof.
+  intros sets2 pb next2 sets3 pads Hex ws_ tot H.
+  apply collapse_bottom_next in H. rewrite join_cols_spec in H. cbn [snd] in H.
+  rewrite <- fold_left_app, <- map_app in H. subst next2.
+  assert (Hw : joined_width tot (map JA (bar_positions ws_ 0 ++ collapsed_bottom sets2 0)) = tot).
+  { apply joined_width_bounded. intros o Hin. apply in_map_iff in Hin. destruct Hin as [y [<- Hin]].
+    cbn [jop_pos]. apply in_app_or in Hin. destruct Hin as [Hin|Hin].
+    - apply bar_positions_lt in Hin. subst tot. lia.
+    - apply (collapsed_bottom_bound _ _ _ Hex) in Hin. subst tot ws_. rewrite map_length. lia. }
+  split; [rewrite border_join_length; exact Hw|].
+  intros x Hx. rewrite border_join_spec, Hw.
+  destruct (N.ltb_spec x tot) as [_|Hge]; [|lia].
+  rewrite joined_above_JA, joined_below_JA. f_equal.
+  destruct (existsb _ _); reflexivity.
+Qed.
+
+(* a row with a nested table in its second cell: the nested table's bottom border
+   (─┴─) is collapsed into the row's bottom border *)
+Example collapse_example :
+  let inner := [RText (tl_from_string (of_ascii [97; 98; 99]) []); RLine [Straight; JoinAbove; Straight] []] in
+  let sets := [(2, [RText (tl_from_string (of_ascii [120; 121]) [])]); (3, inner)] in
+  let '(next2, sets3, pads) := collapse_bottom sets (snd (join_cols [2; 3] [] (border_new 6) 0)) 0 in
+  (cps (border_string next2), collapsed_bottom sets 0, bar_positions [2; 3] 0,
+   cps (tl_string (row_line [] true 1 sets3 pads tl_new))) =
+  ([9472; 9472; 9524; 9472; 9524; 9472], [4], [2],                 (* ──┴─┴─ *)
+   [32; 32; 9474; 32; 9474; 32]).                                     (* "  │ │ " *)
+Proof. vm_compute. reflexivity. Qed.
+
+(* ================================================================== *)
+Print Assumptions border_join_spec.
+Print Assumptions border_join_length.
+Print Assumptions border_join_glyph.
+Print Assumptions border_join_ext.
+Print Assumptions border_join_comm.
+Print Assumptions join_cols_spec.
+Print Assumptions join_cols_next.
+Print Assumptions border_between_rows.
+Print Assumptions argmax_col_spec.
+Print Assumptions shrink_loop_total.
+Print Assumptions shrink_loop_never_panics.
+Print Assumptions c06_text_column_nonzero.
+Print Assumptions col_width_of_ge_min.
+Print Assumptions col_width_of_le_size.
+Print Assumptions table_col_widths_ok.
+Print Assumptions table_width_le.
+Print Assumptions row_line_string.
+Print Assumptions row_line_width.
+Print Assumptions row_line_bars.
+Print Assumptions pad_cell_lines_exact.
+Print Assumptions col_line_sets_exact.
+Print Assumptions row_band_width.
+Print Assumptions row_bottom_border.
+Print Assumptions collapse_top_prev.
